@@ -57,6 +57,8 @@ def step_line(m, st) -> str:
         return f"{now};close;{inp[1]}"
     if k == "threshold":
         return f"{now};threshold;{inp[1]};{inp[2]}"
+    if k == "react2":
+        return f"{now};unmodelled"      # the run is judged by the oracles only (no request is sent for it)
     if k == "react":
         msg = W.message(inp[3], inp[4], inp[5])
         raw = msg.encode("utf8") if isinstance(msg, str) else msg
